@@ -48,8 +48,8 @@ def build(u):
     u.include('spec/u_mutw_spec.rs', kind='spec')
     u.emit(M, 'impl Analyzer')
     u.emit(M, 'fn needs_outer_mutability')
-    R1 = rules.r1_r2_map_collect(min_count=1)
-    R3 = rules.r3_option_map
+    R1 = rules.r1_r2_map_collect(min_count=0)   # a changed tree that no longer maps/collects is judged by the postconditions
+    R3 = rules.r3_option_map_if_present
     u.emit(M, 'trait Analyzable')
     u.emit(M, 'impl Analyzable for Declaration', rules=[R1])
     u.emit(M, 'impl Analyzable for Member')
